@@ -59,6 +59,12 @@ func Run() bool {
 }
 
 func launch(name string) {
+	// The daemon may call Done() at any time after it has been started, so the handler
+	// must be installed first: an early SIGINT would otherwise kill the launcher.
+	interrupt := make(chan os.Signal, 1)
+	signal.Notify(interrupt, os.Interrupt)
+	defer signal.Stop(interrupt)
+
 	cmd := exec.Command(os.Args[0])
 	cmd.Env = append(os.Environ(), envDaemonName+"="+name, envDaemonFlag+"=isDaemon")
 	if err := cmd.Start(); err != nil {
@@ -77,9 +83,6 @@ func launch(name string) {
 		close(finished)
 	}()
 
-	interrupt := make(chan os.Signal, 1)
-	signal.Notify(interrupt, os.Interrupt)
-	defer signal.Stop(interrupt)
 	verifPause("launch-before-wait")
 	select {
 	case <-finished:
